@@ -649,6 +649,57 @@ func shiftProbeOnWholeSource(c *Ctx, rule string) {
 					bad = fmt.Sprintf("%s (%s at %s)", types.ExprString(src), why, c.pos(src.Pos()))
 				}
 			}
+			// what the probe yields is read line by line: a line is gofmt's own iff it came back unchanged AT ITS POSITION
+			// (lines[i] != shifted[i]). Looking the text up anywhere in the shifted output takes a raw-string line that
+			// happens to equal some line of code (a lone `}`) for code, and re-indents it.
+			samePos := false
+			rangeKey := map[types.Object]types.Object{} // range value variable → key variable of the same range statement
+			ast.Inspect(fd.Body, func(y ast.Node) bool {
+				if rs, ok := y.(*ast.RangeStmt); ok {
+					if k, ok := rs.Key.(*ast.Ident); ok {
+						if v, ok := rs.Value.(*ast.Ident); ok {
+							rangeKey[info.ObjectOf(v)] = info.ObjectOf(k)
+						}
+					}
+				}
+				return true
+			})
+			indexOf := func(e ast.Expr) types.Object {
+				e = ast.Unparen(e)
+				if cv, ok := e.(*ast.CallExpr); ok && len(cv.Args) == 1 {
+					if tv, ok := info.Types[cv.Fun]; ok && tv.IsType() {
+						e = ast.Unparen(cv.Args[0])
+					}
+				}
+				switch v := e.(type) {
+				case *ast.IndexExpr:
+					if id, ok := ast.Unparen(v.Index).(*ast.Ident); ok {
+						return info.ObjectOf(id)
+					}
+				case *ast.Ident:
+					return rangeKey[info.ObjectOf(v)]
+				}
+				return nil
+			}
+			ast.Inspect(fd.Body, func(y ast.Node) bool {
+				switch v := y.(type) {
+				case *ast.BinaryExpr:
+					if v.Op == token.NEQ || v.Op == token.EQL {
+						if a, b := indexOf(v.X), indexOf(v.Y); a != nil && a == b {
+							samePos = true
+						}
+					}
+				case *ast.CallExpr:
+					if fn := calleeOf(info, v); fn != nil && (fullName(fn) == "bytes.Equal" || fullName(fn) == "bytes.Compare" || fullName(fn) == "strings.Compare") && len(v.Args) == 2 {
+						if a, b := indexOf(v.Args[0]), indexOf(v.Args[1]); a != nil && a == b {
+							samePos = true
+						}
+					}
+				}
+				return true
+			})
+			c.check(samePos, rule, funcKey(p, fd)+"|probe-read-position-by-position", c.pos(call.Pos()), "a line and the shifted line at the same index are compared",
+				fmt.Sprintf("%s does not compare each line with the line gofmt gave back at the same position: whether a line belongs to a raw string literal is then decided by its text alone, and a line of the literal that equals some line of code (a lone `}`) is re-indented — the string's value changes, and again on every run", fd.Name.Name))
 			c.check(bad == "", rule, funcKey(p, fd)+"|shift-probe-on-whole-source", c.pos(call.Pos()), "the indent-and-reformat probe runs on text gofmt produced (or the original source), never on a piece of it",
 				fmt.Sprintf("%s runs the indent-and-reformat probe on %s: a fragment cut out of the formatted source is not something gofmt accepts, so the probe fails, no line is recognised as the continuation of a raw string literal, and those lines are indented again on every run", fd.Name.Name, bad))
 			return true
@@ -1165,4 +1216,118 @@ func flushedBuildersAreReset(c *Ctx, rule string, rels ...string) {
 	if n == 0 {
 		c.ok(rule, strings.Join(rels, ",")+"|no-flush-closures", "", "no closure emits the running content of an outer builder")
 	}
+}
+
+// generatorCutsGoTextOnPunctuationOnly: C08.R18 — the formatter runs user Go text (parameter lists of templ / css /
+// script templates) through gofmt, which adds and removes white space next to punctuation (`a string,b int` becomes
+// `a string, b int`). Where the generator cuts such a text into pieces, the separator is therefore punctuation alone
+// (or white space alone, after trimming): a separator that is punctuation PLUS white space (", ") cuts the formatted
+// spelling and not the unformatted one — the same template generates different code before and after `templ fmt`.
+func generatorCutsGoTextOnPunctuationOnly(c *Ctx, rule string) {
+	p := c.pkg("generator")
+	info := p.TypesInfo
+	n := 0
+	// does e trace back to the Parameters text of a template node? (locals and parameters followed)
+	var fromParams func(fd *ast.FuncDecl, e ast.Expr, depth int) bool
+	fromParams = func(fd *ast.FuncDecl, e ast.Expr, depth int) bool {
+		found := false
+		ast.Inspect(e, func(m ast.Node) bool {
+			switch x := m.(type) {
+			case *ast.SelectorExpr:
+				if x.Sel.Name == "Value" {
+					if inner, ok := ast.Unparen(x.X).(*ast.SelectorExpr); ok && inner.Sel.Name == "Parameters" {
+						found = true
+					}
+				}
+			case *ast.Ident:
+				ob := info.ObjectOf(x)
+				if ob == nil || depth > 2 {
+					return true
+				}
+				for i, prm := range paramObjs(info, fd) {
+					if prm != ob {
+						continue
+					}
+					for _, cfd := range allFuncDecls(p) {
+						if cfd.Body == nil {
+							continue
+						}
+						ast.Inspect(cfd.Body, func(q ast.Node) bool {
+							if call, ok := q.(*ast.CallExpr); ok && i < len(call.Args) && types.Object(calleeOf(info, call)) == info.Defs[fd.Name] {
+								if fromParams(cfd, call.Args[i], depth+1) {
+									found = true
+								}
+							}
+							return true
+						})
+					}
+				}
+				if v, ok := ob.(*types.Var); ok && !v.IsField() && v.Parent() != p.Types.Scope() {
+					ast.Inspect(fd.Body, func(q ast.Node) bool {
+						switch s := q.(type) {
+						case *ast.AssignStmt:
+							for j, l := range s.Lhs {
+								if lid, ok := l.(*ast.Ident); ok && info.ObjectOf(lid) == ob && lid != x {
+									r := s.Rhs[0]
+									if len(s.Rhs) == len(s.Lhs) {
+										r = s.Rhs[j]
+									}
+									if r.Pos() != e.Pos() && fromParams(fd, r, depth+1) {
+										found = true
+									}
+								}
+							}
+						case *ast.RangeStmt:
+							for _, l := range []ast.Expr{s.Key, s.Value} {
+								if lid, ok := l.(*ast.Ident); ok && info.ObjectOf(lid) == ob && fromParams(fd, s.X, depth+1) {
+									found = true
+								}
+							}
+						}
+						return true
+					})
+				}
+			}
+			return !found
+		})
+		return found
+	}
+	for _, fd := range allFuncDecls(p) {
+		if fd.Body == nil {
+			continue
+		}
+		ast.Inspect(fd.Body, func(x ast.Node) bool {
+			call, ok := x.(*ast.CallExpr)
+			if !ok || len(call.Args) < 2 {
+				return true
+			}
+			fn := calleeOf(info, call)
+			if fn == nil || fn.Pkg() == nil || fn.Pkg().Path() != "strings" {
+				return true
+			}
+			switch fn.Name() {
+			case "Split", "SplitN", "SplitAfter", "SplitAfterN", "Cut", "Index", "LastIndex", "Contains", "TrimPrefix", "TrimSuffix", "HasPrefix", "HasSuffix", "CutPrefix", "CutSuffix":
+			default:
+				return true
+			}
+			sep, isConst := constString(info, call.Args[1])
+			if !isConst || !fromParams(fd, call.Args[0], 0) {
+				return true
+			}
+			n++
+			hasSpace, hasOther := false, false
+			for _, r := range sep {
+				if r == ' ' || r == '\t' || r == '\n' || r == '\r' {
+					hasSpace = true
+				} else {
+					hasOther = true
+				}
+			}
+			c.check(!(hasSpace && hasOther), rule, fmt.Sprintf("%s|cuts-parameters-on:%q", funcKey(p, fd), sep), c.pos(call.Pos()), "the separator is punctuation alone or white space alone",
+				fmt.Sprintf("%s cuts a template's parameter list with strings.%s on %q — punctuation together with white space. `templ fmt` passes that text through gofmt, which inserts exactly such white space: the unformatted `a string,b int` is one piece, the formatted `a string, b int` is two, so formatting changes the generated code (a script template gets a different JavaScript parameter list)", fd.Name.Name, fn.Name(), sep))
+			return true
+		})
+	}
+	c.count("cuts_of_parameter_lists", n)
+	c.ok(rule, p.PkgPath+"|scanned", "", fmt.Sprintf("%d cuts of a template's parameter text by a constant separator examined", n))
 }
